@@ -267,6 +267,9 @@ func (ts *TestServer) run(hs *HandlerScript, h *hIO, method string) (ret error) 
 		em, ec := errFields(ret)
 		w.Log(Event{Actor: actor, Op: "returned", Err: em, Code: ec})
 	}()
+	w.mu.Lock()
+	w.Vals["hctx:"+hs.ID] = h.ctx
+	w.mu.Unlock()
 	if hs.Hook != nil {
 		hs.Hook(h.ctx, w, actor)
 	}
@@ -314,6 +317,15 @@ func (ts *TestServer) run(hs *HandlerScript, h *hIO, method string) (ret error) 
 			w.Log(Event{Actor: actor, Op: op.K, Idx: i, Err: em, Code: ec, Detail: mdString(op.MD)})
 		case "sleep":
 			w.Sleep(op.D)
+		case "waitfault":
+			w.WaitUntil("h:waitfault", func() bool {
+				for _, e := range w.Events {
+					if e.Actor == "fault" {
+						return true
+					}
+				}
+				return h.ctx.Err() != nil
+			})
 		case "waitctx":
 			w.WaitUntil("h:waitctx", func() bool { return h.ctx.Err() != nil })
 			em, ec := errFields(h.ctx.Err())
